@@ -46,7 +46,7 @@ func collectFacts(p *packages.Package, fd *ast.FuncDecl, name string, m map[stri
 	switch name {
 	case "layer4.listener.handle", "layer4.Server.handle":
 		// how is the matching buffer returned to the pool?
-		bare, guarded, anyPut, exactGuard := false, false, false, false
+		bare, guarded, anyPut, exactGuard, inexactGuard := false, false, false, false, false
 		ast.Inspect(fd.Body, func(n ast.Node) bool {
 			ds, ok := n.(*ast.DeferStmt)
 			if !ok {
@@ -62,18 +62,24 @@ func collectFacts(p *packages.Package, fd *ast.FuncDecl, name string, m map[stri
 			if fl, ok := ds.Call.Fun.(*ast.FuncLit); ok {
 				ast.Inspect(fl.Body, func(x ast.Node) bool {
 					if is, ok := x.(*ast.IfStmt); ok && containsIdent(is.Cond, "errHijacked") {
+						exact := false
 						// the guard must be exactly `!errors.Is(err, errHijacked)`: any weaker condition lets the buffer of some
 						// hijacked connections back into the pool
 						if ue, ok := is.Cond.(*ast.UnaryExpr); ok && ue.Op.String() == "!" {
 							if c, ok := ue.X.(*ast.CallExpr); ok {
 								if r, nm := callName(c); r == "errors" && nm == "Is" && len(c.Args) == 2 && exprString(c.Args[1]) == "errHijacked" {
-									exactGuard = true
+									exact = true
 								}
 							}
 						}
 						ast.Inspect(is.Body, func(y ast.Node) bool {
 							if c, ok := y.(*ast.CallExpr); ok && isCallTo(c, "bufPool", "Put") {
 								guarded = true
+								if exact {
+									exactGuard = true
+								} else {
+									inexactGuard = true
+								}
 							}
 							return true
 						})
@@ -101,7 +107,7 @@ func collectFacts(p *packages.Package, fd *ast.FuncDecl, name string, m map[stri
 		boolFact(m, key+"_closes_conn_unless_hijacked", closeGuarded)
 		boolFact(m, key+"_bare_defer_put", bare)
 		boolFact(m, key+"_put_guarded_by_hijack", guarded)
-		boolFact(m, key+"_put_guard_is_exactly_not_hijacked", guarded && exactGuard)
+		boolFact(m, key+"_put_guard_is_exactly_not_hijacked", guarded && exactGuard && !inexactGuard)
 		boolFact(m, key+"_any_put", anyPut)
 		boolFact(m, key+"_mentions_errHijacked", containsIdent(fd.Body, "errHijacked"))
 	case "layer4.listener.loop":
